@@ -70,7 +70,35 @@ def detect(pid, var, checks):
             "caught_by": [c for c, r in res.items() if r["exit"] == 1 and r["violation"]]})
     return 0
 
+def sdetect(pid, var, checks, slot):
+    """Development variant of detect: the patch goes to a scratch worktree /tmp/wt_det<slot> and the checks run
+    with VERIF_REPO pointing there, so /repo is not touched and several can run side by side."""
+    d = os.path.join(OUT, pid, var)
+    if not os.path.exists(os.path.join(d, "patch.diff")):
+        d = os.path.join("/verif/seeded", "%s_%s" % (pid, var))
+    wt = "/tmp/wt_det%s" % slot
+    if not os.path.isdir(wt):
+        sh(["git", "-C", "/repo", "worktree", "add", "-q", wt, "HEAD"])
+    sh("git checkout -q -- . && git clean -fdq -e target", cwd=wt)
+    rc, o = sh(["git", "apply", os.path.join(d, "patch.diff")], cwd=wt)
+    if rc != 0:
+        print("patch does not apply: " + o); return 2
+    res = {}
+    for c in checks:
+        t0 = time.time()
+        rc, o = sh(["./check", c], cwd="/verif", timeout=3000, env={"VERIF_REPO": wt})
+        viol = re.findall(r"^VIOLATION property=(\S+) replay=(\S+)", o, re.M)
+        what = re.findall(r"^violation: (.*)$", o, re.M)
+        res[c] = {"exit": rc, "violation": viol, "what": what[:1], "secs": round(time.time() - t0, 1), "tail": "" if rc in (0, 1) else o[-600:]}
+    sh("git checkout -q -- .", cwd=wt)
+    record({"phase": "sdetect", "id": pid, "variant": var, "checks": res,
+            "caught_by": [c for c, r in res.items() if r["exit"] == 1 and r["violation"]]})
+    return 0
+
+
 if __name__ == "__main__":
+    if sys.argv[1] == "sdetect":
+        sys.exit(sdetect(sys.argv[2], sys.argv[3], sys.argv[5:] or [sys.argv[2]], sys.argv[4]))
     if sys.argv[1] == "confirm":
         sys.exit(0 if confirm(sys.argv[2], sys.argv[3]) else 1)
     elif sys.argv[1] == "detect":
